@@ -106,3 +106,13 @@ func init() {
 		Stages: []Stage{{Name: "actions", Pkg: "./mon/c04", Race: true, Procs: 4, Batches: [2]int{4, 12}, TimeoutS: [2]int{900, 3600}}},
 	}
 }
+
+func init() {
+	properties["C19"] = Property{
+		Level: "exploration",
+		Rule:  "one case = (operation, protection state, caller, state kind, generated initial content): 25 operations (direct, from RunJavascript, from a rule action) x {none, writeKey, readKey, both, readOnly, disabled} x {no key, wrong key, right key} x {indexed, linear}; refused => error and identical raw storage and live items; allowed => same result and resulting state as an unprotected twin; non-trivial = protection state != none; distinct by (state, protection, caller, op, content seed)",
+		Floor: [2]int{200, 2000},
+		Assumptions: []string{"the matrix of DESIGN §5 C19: write operations need the write key / are refused when read-only; operations that reveal facts or rules need the read key; a disabled location refuses everything; RuleEnabled/GetParents/SetProp/StateSize-when-disabled are outside the matrix"},
+		Stages: []Stage{{Name: "matrix", Pkg: "./mon/c19", Procs: 2, Batches: [2]int{4, 8}, TimeoutS: [2]int{900, 3600}}},
+	}
+}
